@@ -527,6 +527,10 @@ EB_API EbErrorType svt_av1_dec_set_parameter(EbComponentType *         svt_dec_c
 
     EbDecHandle *dec_handle_ptr = (EbDecHandle *)svt_dec_component->p_component_private;
 
+    // the thread count sizes the worker arrays and bounds the loops over them; 1 means single-threaded decoding
+    if (config_struct->threads == 0)
+        return EB_ErrorBadParameter;
+
     dec_handle_ptr->dec_config        = *config_struct;
     dec_handle_ptr->is_16bit_pipeline = config_struct->is_16bit_pipeline;
 
